@@ -41,6 +41,9 @@ def run(ctx):
     c06_1c(ctx)
     c06_2(ctx)
     c06_3(ctx)
+    # the verdict at an exact cost boundary must not depend on spend order: the budget is only tested by charge-paired guards
+    from . import c04
+    c04.c04_3(ctx, R="C06.2")
 
 
 def c06_1(ctx):
